@@ -12,6 +12,7 @@ import (
 	"sync"
 	"testing"
 	"testing/synctest"
+	"time"
 
 	"github.com/prometheus/prometheus/model/labels"
 	"github.com/prometheus/prometheus/storage"
@@ -562,6 +563,11 @@ func Execute(t *testing.T, prop string, plan *Plan) (res *runner.Result) {
 	db.DisableCompactions()
 	e.db = db
 
+	simStart := time.Now() // the bubble's fake clock
+	defer func() { res.SimTimeMs = time.Since(simStart).Milliseconds() }()
+	if c.Policy.Kind == "starve" {
+		res.Count("fault:task-stalled-by-scheduler", 1) // one task (prefix in the policy) is held back for the first steps
+	}
 	e.s = sched.New(prng.DeriveS(c.Seed, "sched"), c.Policy)
 	e.s.MaxSteps = c.MaxSteps
 	e.s.KeepTrace = os.Getenv("VERIF_DEBUG") != ""
@@ -633,7 +639,6 @@ func Execute(t *testing.T, prop string, plan *Plan) (res *runner.Result) {
 	e.stopped = false
 	failed := e.failed
 	e.mu.Unlock()
-	res.SimTimeMs = 0
 	res.Counters["sched_steps"] += int64(steps)
 	if os.Getenv("VERIF_DEBUG") != "" {
 		for _, b := range db.Blocks() {
